@@ -8,15 +8,16 @@
 (* check is printed ("BAD", run, step, line, event, {names}) and validation   *)
 (* continues from the observed state, so one pass reports every              *)
 (* non-conforming step.  Names starting with "drift." are not violations.     *)
-EXTENDS Pool, Json, IOUtils
+EXTENDS Pool, Stable, Json, IOUtils
 
 Rec == ndJsonDeserialize(IOEnv.TRACE)
 
 VARIABLES l,      \* next line of the trace
           st,     \* specification state (Pool's state record)
-          last    \* summary of the previous event (for deposit-then-withdraw)
+          last,   \* summary of the previous event (for deposit-then-withdraw)
+          pc      \* constants of the pool under test: amplification and asset decimals (stableswap pools)
 
-vars == <<l, st, last>>
+vars == <<l, st, last, pc>>
 
 StOf(ptype, o) ==
   [ bal |-> o.bal, fee |-> o.fee, feeAll |-> o.feeAll, burned |-> o.burned, col |-> o.col,
@@ -52,6 +53,32 @@ Unchanged(ev, t) ==
 
 Gross(o) == ((o.ret ++ o.sf) ++ o.pf) ++ o.bf
 
+\* ---- two-asset stableswap pools (C03): the curve is Stable.tla's, on reserves normalised to 18 decimals ----------
+InDomain(s) == \A a \in 1 .. 2 : Pow(N(10), pc.dec[a]) \preceq R(s, a)      \* one whole token of each asset
+NormD(s) == Dstar2(Norm(R(s, 1), pc.dec[1]), Norm(R(s, 2), pc.dec[2]), pc.amp)
+CoarseUnit == Pow(N(10), 18 - (IF pc.dec[1] < pc.dec[2] THEN pc.dec[1] ELSE pc.dec[2]))
+StableSwapClauses(ev) ==
+  IF st.ptype # "stable" \/ ~InDomain(st) THEN <<>>
+  ELSE LET dir == ev.args.dir  oth == Oth(dir)  o == ev.out  g == Gross(o)
+           X1 == Norm(R(st, dir) ++ ev.args.offer, pc.dec[dir])
+           D == NormD(st)
+       IN << <<"C03.swap.proceeds<=ask-reserve", g \preceq R(st, oth)>>,
+             <<"C03.swap.ask-reserve-not-below-the-curve",
+                g \preceq R(st, oth) =>
+                  (Norm(R(st, oth) -- g, pc.dec[oth]) ++ Dust2(X1, D, pc.amp, pc.dec[oth])) \succeq Ystar2(X1, D, pc.amp)>>,
+             <<"C03.swap.fees=floor(share*gross)",
+                o.sf = MulFloor(g, st.fees.s) /\ o.pf = MulFloor(g, st.fees.p) /\ o.bf = MulFloor(g, st.fees.b)>> >>
+StableProvideClauses(ev, t) ==
+  IF st.ptype # "stable" \/ st.S = Zero \/ ~InDomain(st) THEN <<>>
+  ELSE LET A0 == Norm(R(st, 1), pc.dec[1])  B0 == Norm(R(st, 2), pc.dec[2])
+           A1 == Norm(R(st, 1) ++ ev.args.d[1], pc.dec[1])  B1 == Norm(R(st, 2) ++ ev.args.d[2], pc.dec[2])
+           suffix == IF pc.dec[1] # pc.dec[2] THEN "(unequal-decimals)" ELSE ""
+           tol == (N(16) ++ Lopsided(NMax(A1, B1), NMin(A0, B0))) ** CoarseUnit
+       IN MintChecks("C03", suffix, ev.out.minted, st.S, Dstar2(A0, B0, pc.amp), Dstar2(A1, B1, pc.amp), tol)
+StableWithdrawClauses(t) ==
+  IF st.ptype # "stable" \/ ~InDomain(st) \/ ~InDomain(t) THEN <<>>
+  ELSE << <<"C03.withdraw.invariant-per-LP-never-falls", (NormD(st) ** t.S) \preceq ((NormD(t) ++ One) ** st.S)>> >>
+
 ProvideEv(ev, t) ==
   LET d == ev.args.d  u == ev.actor  slip == ev.args.slip
       live == Zero \prec st.S /\ Zero \prec R(st, 1) /\ Zero \prec R(st, 2)
@@ -63,6 +90,7 @@ ProvideEv(ev, t) ==
                    (slip # "none" /\ slip \preceq DEC /\ live /\ st.ptype = "cp") => SlipBoundCp(st, d, slip)>>,
                 <<"drift.provide.minted",
                    (st.ptype = "cp" /\ (st.S = Zero \/ live)) => m = ImplMintCp(st, d)>> >>
+          \o StableProvideClauses(ev, t)
           \o ObsChecks(ProvideNext(st, u, d, ev.args.recv, m), ev.obs)
      ELSE Unchanged(ev, t)
           \o << <<"C15.deposit.inside-rejected",
@@ -80,6 +108,7 @@ WithdrawEv(ev, t) ==
                      /\ (Zero \prec last.preS \/ last.preBal = <<Zero, Zero>>) )
                    => \A a \in 1 .. 2 : out[a] \preceq last.d[a]>>,
                 <<"drift.withdraw.refund", Zero \prec st.S => out = ImplRefund(st, amt)>> >>
+          \o StableWithdrawClauses(t)
           \o ObsChecks(WithdrawNext(st, u, amt, out), ev.obs)
      ELSE Unchanged(ev, t)
 
@@ -102,6 +131,7 @@ SwapEv(ev, t) ==
                    (live /\ st.ptype = "cp") =>
                      LET i == ImplSwap(st, dir, offer) IN
                        i.ret = o.ret /\ i.sf = o.sf /\ i.pf = o.pf /\ i.bf = o.bf /\ i.spread = o.spread>> >>
+          \o StableSwapClauses(ev)
           \o ObsChecks(SwapNext(st, u, dir, offer, o, ev.args.to), ev.obs)
      ELSE Unchanged(ev, t)
           \o << <<"C15.swap.inside-rejected",
@@ -153,7 +183,7 @@ Report(ev, bad) ==
   ELSE PrintT(ToJson([k |-> "BAD", run |-> ev.run, step |-> IF ev.ev = "reset" THEN -1 ELSE ev.step,
                       line |-> l, ev |-> ev.ev, bad |-> bad]))
 
-Init == l = 1 /\ st = [ptype |-> "none"] /\ last = NoLast
+Init == l = 1 /\ st = [ptype |-> "none"] /\ last = NoLast /\ pc = [amp |-> Zero, dec |-> <<6, 6>>]
 
 Next ==
   /\ l <= Len(Rec)
@@ -162,6 +192,7 @@ Next ==
        THEN LET t == StOf(ev.cfg.ptype, ev.obs) IN
             /\ Report(ev, Failed(ResetChecks(t, ev.obs)))
             /\ st' = t /\ last' = NoLast
+            /\ pc' = [amp |-> IF ev.cfg.ptype = "stable" THEN ev.cfg.amp ELSE Zero, dec |-> ev.cfg.dec]
        ELSE LET t == StOf(st.ptype, ev.obs) IN
             /\ Report(ev, Failed(EvChecks(ev, t)))
             /\ st' = t
@@ -169,6 +200,7 @@ Next ==
                        THEN [ev |-> "provide", actor |-> ev.actor, recv |-> ev.args.recv, d |-> ev.args.d,
                              minted |-> ev.out.minted, preS |-> st.S, preBal |-> st.bal]
                        ELSE NoLast
+            /\ pc' = pc
   /\ l' = l + 1
 
 Spec == Init /\ [][Next]_vars
